@@ -274,6 +274,9 @@ func (fx *FnExec) run() {
 	for _, fv := range fx.fn.FreeVars {
 		// closures verified on their own: free variables are pointers to cells
 		v := fx.newParam(st, fv.Name(), fv.Type())
+		if _, isP := derefType(fv.Type()); isP {
+			st.assume("(> " + v.T + " 0)") // a captured variable's cell
+		}
 		st.vals[fv] = v
 		fx.params[fv.Name()] = v
 	}
@@ -292,6 +295,60 @@ func (fx *FnExec) run() {
 	if fx.fc != nil {
 		env := fx.envFor(st, fx.fn, nil)
 		for _, c := range fx.fc.Requires {
+			if strings.HasPrefix(c.Name, "init.") {
+				// A-INIT: main starts in the state the package initialiser leaves: the clause must be a postcondition of init
+				okInit := false
+				if ic := eng.contracts.Funcs[fx.fn.Pkg.Pkg.Name()+".init"]; ic != nil && fx.fn.Name() == "main" {
+					for _, e := range ic.Ensures {
+						if e.Name == strings.TrimPrefix(c.Name, "init.") && strings.Join(strings.Fields(e.Text), " ") == strings.Join(strings.Fields(c.Text), " ") && !e.Trusted {
+							okInit = true
+						}
+					}
+				}
+				if !okInit {
+					fx.bindFail(c, fmt.Errorf("precondition %s is not a (proved) postcondition of the package initialiser with the same text", c.Name))
+					continue
+				}
+				eng.assumptions["A-INIT: main starts in the state the package initialiser leaves (its preconditions named init.* are the proved postconditions of init)"] = true
+			}
+			f, err := fx.safeTr(env, c)
+			if err != nil {
+				fx.bindFail(c, err)
+				continue
+			}
+			st.assume(f)
+		}
+		fx.entry = st.fork()
+	}
+	if _, ok := eng.ghosts["exitcode"]; ok && (fx.eng.touchFunc(fx.fn)["ghost:exitcode"] || fx.pkgContract() != nil) {
+		st.assume("(= " + eng.ghostGet(st, "exitcode") + " (- 1))") // the process is running when a function is entered
+	}
+	if fx.isPkgInit() {
+		// Go zero-initialises package-level variables before the initialiser runs
+		var names []string
+		for n, m := range fx.fn.Pkg.Members {
+			if g, ok := m.(*ssa.Global); ok && g.Object() != nil {
+				names = append(names, n)
+			}
+		}
+		sort.Strings(names)
+		for _, n := range names {
+			g := fx.fn.Pkg.Members[n].(*ssa.Global)
+			tv := g.Object().(*types.Var)
+			comp := eng.regPtr(tv.Type())
+			st.assume("(= " + sel(eng.heapGet(st, comp), eng.globalAddr(tv)) + " " + eng.sorts.zero(tv.Type()) + ")")
+		}
+	}
+	if pc := fx.pkgContract(); pc != nil {
+		// package section: definitions of spec functions; facts about never-written package state (proved for init)
+		env := fx.envFor(st, fx.fn, nil)
+		env.fc = pc
+		cls := append([]*Clause{}, pc.Specs...)
+		if !fx.isPkgInit() {
+			cls = append(cls, pc.PkgInvs...)
+			fx.eng.assumptions["A-INIT: every function of package "+fx.fn.Pkg.Pkg.Name()+" runs after the package initialiser; the package invariants (proved as postconditions of init) hold at its entry because no function writes the package state they mention (frame obligations)"] = true
+		}
+		for _, c := range cls {
 			f, err := fx.safeTr(env, c)
 			if err != nil {
 				fx.bindFail(c, err)
@@ -306,6 +363,21 @@ func (fx *FnExec) run() {
 	fx.pending = map[string]*pendingJoin{}
 	fx.runFunc(st, fx.fn, args, func(s *State, res []Val) { fx.checkPost(s, res) }, 0)
 	fx.drainJoins()
+}
+
+func (fx *FnExec) pkgContract() *FuncContract {
+	fn := fx.fn
+	for fn.Parent() != nil {
+		fn = fn.Parent()
+	}
+	if fn.Pkg == nil {
+		return nil
+	}
+	return fx.eng.pkgContract[fn.Pkg.Pkg.Name()]
+}
+
+func (fx *FnExec) isPkgInit() bool {
+	return fx.fn.Name() == "init" && fx.fn.Synthetic != "" && fx.fn.Parent() == nil
 }
 
 func (fx *FnExec) safeTr(env *Env, c *Clause) (f string, err error) {
@@ -341,6 +413,13 @@ func (fx *FnExec) envFor(st *State, fn *ssa.Function, results []Val) *Env {
 	for k, v := range fx.params {
 		env.vars[k] = v
 	}
+	for _, fv := range fx.fn.FreeVars {
+		if pv, ok := fx.params[fv.Name()]; ok {
+			if et, isP := derefType(fv.Type()); isP {
+				env.vars[fv.Name()] = fx.loadAt(st, &Loc{Kind: LDeref, Ptr: pv, ET: et})
+			}
+		}
+	}
 	if results != nil {
 		sig := fn.Signature
 		for i, r := range results {
@@ -360,6 +439,18 @@ func (fx *FnExec) envFor(st *State, fn *ssa.Function, results []Val) *Env {
 }
 
 func (fx *FnExec) checkPost(st *State, res []Val) {
+	if pc := fx.pkgContract(); pc != nil && fx.isPkgInit() {
+		env := fx.envFor(st, fx.fn, res)
+		env.fc = pc
+		for _, c := range pc.PkgInvs {
+			f, err := fx.safeTr(env, c)
+			if err != nil {
+				fx.bindFail(c, err)
+				continue
+			}
+			fx.emit(st, &Obligation{Kind: "post", Name: "package." + c.Name, Props: c.Props, Goal: f, Clause: c.Name})
+		}
+	}
 	if fx.fc == nil {
 		return
 	}
@@ -439,6 +530,11 @@ func (fx *FnExec) runFunc(st *State, fn *ssa.Function, args []Val, k cont, depth
 	k2 := func(s *State, res []Val) {
 		s.frameID, s.frameDepth = callerFrame, callerDepth
 		k(s, res)
+	}
+	if fn == fx.fn && fx.isPkgInit() && len(fn.Blocks) > 1 && fn.Blocks[1].Comment == "init.start" {
+		// package initialiser: runs exactly once (the init$guard test is the run-time's business)
+		fx.execBlock(st, fn.Blocks[1], fn.Blocks[0], k2, depth)
+		return
 	}
 	fx.execBlock(st, fn.Blocks[0], nil, k2, depth)
 }
@@ -1026,7 +1122,12 @@ func (fx *FnExec) returnGhosts(st *State, ret *ssa.Return) {
 }
 
 // resolveAtReturn: value of a source-level local at a return statement.
-func (fx *FnExec) resolveAtReturn(st *State, ret *ssa.Return, name string) (Val, bool) {
+func (fx *FnExec) resolveAtReturn(st *State, ret0 *ssa.Return, name string) (Val, bool) {
+	return fx.resolveAt(st, ret0, name)
+}
+
+// resolveAt: value of a source-level local just before instruction ret.
+func (fx *FnExec) resolveAt(st *State, ret ssa.Instruction, name string) (Val, bool) {
 	fn := ret.Parent()
 	info := fx.eng.typesInfo(fn)
 	if info == nil || !ret.Pos().IsValid() {
@@ -1060,7 +1161,7 @@ func (fx *FnExec) resolveAtReturn(st *State, ret *ssa.Return, name string) (Val,
 			continue
 		}
 		for _, in := range b.Instrs {
-			if in == ssa.Instruction(ret) {
+			if in == ret {
 				break
 			}
 			d, ok := in.(*ssa.DebugRef)
@@ -1310,7 +1411,7 @@ func (fx *FnExec) frameCheck(st *State, in ssa.Instruction, ref string, loc *Loc
 		if fx.fn.Name() == "init" {
 			ok = "true"
 		}
-		fx.emit(st, &Obligation{Kind: "frame", Name: fx.siteName(in) + ".global", Props: []string{"C14", "C15"}, Goal: ok})
+		fx.emit(st, &Obligation{Kind: "frame", Name: fx.siteName(in) + ".global", Props: fx.frameProps(), Goal: ok})
 		return
 	}
 	alts := []string{"(> " + ref + " " + fx.entry.alloc + ")"}
@@ -1340,7 +1441,14 @@ func (fx *FnExec) frameCheck(st *State, in ssa.Instruction, ref string, loc *Loc
 		}
 		alts = append(alts, c)
 	}
-	fx.emit(st, &Obligation{Kind: "frame", Name: fx.siteName(in), Props: []string{"C14", "C15"}, Goal: or(alts...)})
+	fx.emit(st, &Obligation{Kind: "frame", Name: fx.siteName(in), Props: fx.frameProps(), Goal: or(alts...)})
+}
+
+func (fx *FnExec) frameProps() []string {
+	if fx.pkgContract() != nil && fx.fn.Pkg != nil && fx.fn.Pkg.Pkg.Name() == "main" {
+		return []string{"C17"}
+	}
+	return []string{"C14", "C15"}
 }
 
 func locRoot(l *Loc) (string, bool) {
@@ -1619,6 +1727,9 @@ func (fx *FnExec) step(st *State, in ssa.Instruction) {
 			fx.unsupp("unary operator %s", in.Op)
 		}
 	case *ssa.Store:
+		if g, isG := in.Addr.(*ssa.Global); isG && g.Object() == nil {
+			return // init$guard
+		}
 		l := fx.locOf(st, in.Addr)
 		if _, isG := in.Addr.(*ssa.Global); !isG && l.Kind == LDeref {
 			fx.safety(st, "nil", fx.siteName(in), "(not (= "+l.Ptr.T+" 0))")
@@ -1649,7 +1760,11 @@ func (fx *FnExec) step(st *State, in ssa.Instruction) {
 			return
 		}
 		if v.S == SSlice && eng.sorts.sortOf(in.Type()) == SStr {
-			// string(bytes): an unconstrained string
+			// string(bytes): an unconstrained string (the text of the file for bytes that come from ReadFile)
+			if fd, ok := v.M.(*FileData); ok {
+				st.vals[in] = Val{T: app("filetext", fd.Path), S: SStr, GT: in.Type()}
+				return
+			}
 			n := eng.fresh(st, "strconv", SStr)
 			st.vals[in] = Val{T: n, S: SStr, GT: in.Type()}
 			return
@@ -1666,8 +1781,14 @@ func (fx *FnExec) step(st *State, in ssa.Instruction) {
 			if _, isInt := in.X.Type().Underlying().(*types.Basic); isInt {
 				st.vals[in] = Val{T: app("boxInt", v.T), S: SInt, GT: in.Type()}
 			} else {
-				st.vals[in] = Val{T: v.T, S: SInt, GT: in.Type(), M: v.M}
+				m := v.M
+				if m == nil {
+					m = &DynType{T: in.X.Type()}
+				}
+				st.vals[in] = Val{T: v.T, S: SInt, GT: in.Type(), M: m}
 			}
+		case SReal:
+			st.vals[in] = Val{T: app("boxReal", v.T), S: SInt, GT: in.Type()}
 		default:
 			// boxed struct / float / bool: opaque non-nil value
 			n := eng.fresh(st, "box", SInt)
@@ -1689,7 +1810,14 @@ func (fx *FnExec) step(st *State, in ssa.Instruction) {
 		ref := fx.newRef(st)
 		ks, vs := eng.sorts.sortOf(mt.Key()), eng.sorts.sortOf(mt.Elem())
 		eng.heapSet(st, mapDom(mt), store(eng.heapGet(st, mapDom(mt)), ref, "((as const (Array "+ks+" Bool)) false)"))
-		eng.heapSet(st, mapVal(mt), store(eng.heapGet(st, mapVal(mt)), ref, "((as const (Array "+ks+" "+vs+")) "+eng.sorts.zero(mt.Elem())+")"))
+		zv := "((as const (Array " + ks + " " + vs + ")) " + eng.sorts.zero(mt.Elem()) + ")"
+		if strings.Contains(eng.sorts.zero(mt.Elem()), "eps") {
+			// cvc5 accepts only values in constant arrays
+			zv = eng.fresh(st, "zeromap", "(Array "+ks+" "+vs+")")
+			i := eng.freshName("i")
+			st.assume("(forall ((" + i + " " + ks + ")) (! (= (select " + zv + " " + i + ") " + eng.sorts.zero(mt.Elem()) + ") :pattern ((select " + zv + " " + i + "))))")
+		}
+		eng.heapSet(st, mapVal(mt), store(eng.heapGet(st, mapVal(mt)), ref, zv))
 		eng.heapSet(st, mapLen, store(eng.heapGet(st, mapLen), ref, "0"))
 		st.vals[in] = Val{T: ref, S: SInt, GT: in.Type()}
 	case *ssa.MakeClosure:
@@ -1706,6 +1834,7 @@ func (fx *FnExec) step(st *State, in ssa.Instruction) {
 		}
 		ref := fx.newRef(st)
 		st.vals[in] = Val{T: ref, S: SInt, GT: in.Type(), M: cl}
+		fx.closureSpec(st, in, fn, cl, ref)
 	case *ssa.Slice:
 		fx.doSlice(st, in)
 	case *ssa.Lookup:
@@ -1923,4 +2052,158 @@ func (fx *FnExec) doTypeAssert(st *State, in *ssa.TypeAssert) {
 // initialisation and whose initialiser is a literal the engine can read (checked by touch scan).
 func (fx *FnExec) loadGlobal(st *State, g *ssa.Global) (Val, bool) {
 	return fx.eng.immutableGlobal(fx, st, g)
+}
+
+// closureSpec: a function literal under a "pure" contract whose results are (string, entropy) is a
+// separator function whose every call returns results satisfying that contract's postconditions:
+// forall k. Post[res0 := sepval(f, k), res1 := sfent(f)] with the captured variables' values at creation.
+// Sound because the literal is verified against the contract, has no effects (pure: its touch set is
+// empty, checked here) and its captured cells are written only before the closure is made.
+func (fx *FnExec) closureSpec(st *State, in *ssa.MakeClosure, fn *ssa.Function, cl *Closure, ref string) {
+	eng := fx.eng
+	fc := eng.contractOf(fn)
+	if fc == nil || !fc.Pure || len(fc.Ensures) == 0 {
+		return
+	}
+	rs := fn.Signature.Results()
+	if rs.Len() != 2 || eng.sorts.sortOf(rs.At(0).Type()) != SStr || eng.sorts.sortOf(rs.At(1).Type()) != SReal || fn.Signature.Params().Len() != 0 {
+		return
+	}
+	for c := range eng.touchFunc(fn) {
+		if c != "@alloc" {
+			fx.unsupp("closure %s is declared pure but touches %s", fn, c)
+		}
+	}
+	for _, b := range in.Bindings {
+		// captured cells: one initialising store, otherwise only captured
+		if a, ok := b.(*ssa.Alloc); ok {
+			stores := 0
+			for _, r := range *a.Referrers() {
+				switch r := r.(type) {
+				case *ssa.Store:
+					if r.Addr == ssa.Value(a) {
+						stores++
+					}
+				case *ssa.MakeClosure, *ssa.DebugRef:
+				default:
+					fx.unsupp("captured variable of pure closure %s is used by %s", fn, r)
+				}
+			}
+			if stores > 1 {
+				fx.unsupp("captured variable of pure closure %s is assigned more than once", fn)
+			}
+		}
+	}
+	kq := eng.freshName("k")
+	env := &Env{fx: fx, cur: st, old: st, vars: map[string]Val{}, fc: fc}
+	if fn.Parent() != nil && fn.Parent().Pkg != nil {
+		env.pkg = fn.Parent().Pkg.Pkg
+	}
+	for i, fv := range fn.FreeVars {
+		if cl.BindLocs[i] != nil {
+			env.vars[fv.Name()] = fx.loadAt(st, cl.BindLocs[i])
+		} else if et, isP := derefType(fv.Type()); isP {
+			env.vars[fv.Name()] = fx.loadAt(st, &Loc{Kind: LDeref, Ptr: cl.BindVals[i], ET: et})
+		}
+	}
+	env.vars["res0"] = Val{T: "(sepval " + ref + " " + kq + ")", S: SStr, GT: rs.At(0).Type()}
+	env.vars["res"] = env.vars["res0"]
+	env.vars["res1"] = Val{T: "(sfent " + ref + ")", S: SReal, GT: rs.At(1).Type()}
+	for _, c := range fc.Ensures {
+		f, err := fx.safeTr(env, c)
+		if err != nil {
+			fx.bindFail(c, err)
+			continue
+		}
+		st.assume("(forall ((" + kq + " Int)) (! " + f + " :pattern ((sepval " + ref + " " + kq + "))))")
+	}
+	eng.assumptions["A-CLOSURE: a function value made from a function literal behaves, at every call, as the literal's verified contract says (here: pure separator functions, results named by sepval/sfent)"] = true
+}
+
+// callGhosts executes the "call NAME#k ghost G = e" clauses of the function under verification
+// after call instruction in has returned res.
+func (fx *FnExec) callGhosts(st *State, in *ssa.Call, recv *Val, res []Val) {
+	fc := fx.fc
+	if fc == nil || len(fc.CallGhosts) == 0 || in.Parent() != fx.fn {
+		return
+	}
+	nameOf := func(c *ssa.Call) string {
+		cc := c.Common()
+		if cc.IsInvoke() {
+			return cc.Method.Name()
+		}
+		if f, ok := cc.Value.(*ssa.Function); ok {
+			return f.Name()
+		}
+		return ""
+	}
+	me := nameOf(in)
+	if me == "" {
+		return
+	}
+	ord := 0
+	for _, b := range fx.fn.Blocks {
+		for _, x := range b.Instrs {
+			if c, ok := x.(*ssa.Call); ok && nameOf(c) == me {
+				ord++
+				if c == in {
+					goto found
+				}
+			}
+		}
+	}
+	return
+found:
+	for _, cg := range fc.CallGhosts {
+		if cg.Callee != me || cg.Ordinal != ord {
+			continue
+		}
+		key := "fg:" + fc.Key + ":" + cg.Name
+		cur, ok := st.ghost[key]
+		if !ok {
+			fx.unsupp("call ghost for undeclared ghost %s", cg.Name)
+		}
+		env := fx.envFor(st, fx.fn, nil)
+		env.local = func(name string) (Val, bool) { return fx.resolveAt(st, in, name) }
+		for i, r := range res {
+			env.vars[fmt.Sprintf("res%d", i)] = r
+			if i == 0 {
+				env.vars["res"] = r
+			}
+		}
+		if recv != nil {
+			rv := *recv
+			if dt, ok := rv.M.(*DynType); ok {
+				rv.GT = dt.T
+			}
+			env.vars["recv"] = rv
+		}
+		var iv, vv Val
+		okTr := func() (ok bool) {
+			defer func() {
+				if r := recover(); r != nil {
+					if _, isT := r.(trErr); isT {
+						ok = false
+						return
+					}
+					panic(r)
+				}
+			}()
+			if cg.Idx != nil {
+				iv = env.tr(cg.Idx)
+			}
+			vv = env.tr(cg.Val)
+			return true
+		}()
+		if !okTr || vv.S != fc.ghostSort(cg.Name) && cg.Idx == nil {
+			continue // not applicable on this path (e.g. the receiver has another dynamic type)
+		}
+		n := fx.eng.fresh(st, "ghost_"+cg.Name, fc.ghostSort(cg.Name))
+		if cg.Idx != nil {
+			st.assume("(= " + n + " " + store(cur, iv.T, vv.T) + ")")
+		} else {
+			st.assume("(= " + n + " " + vv.T + ")")
+		}
+		st.ghost[key] = n
+	}
 }
